@@ -3,7 +3,7 @@
 Require Import FstV.Base FstV.Pack FstV.Node FstV.Registry FstV.Builder FstV.GraphSem FstV.Format
                FstV.CodecSpec FstV.Fst.
 Require Import FstV.proofs.BuilderInv FstV.proofs.BuilderRegLemmas FstV.proofs.BuilderGraphLemmas
-               FstV.proofs.BuilderBytesLemmas.
+               FstV.proofs.BuilderBytesLemmas FstV.proofs.BuilderNodeBytes.
 Require Import Lia ZifyN ZifyBool ZifyNat.
 
 Definition sentinel (n : bnode) : Prop := n_final n = true /\ n_trans n = [] /\ n_fout n = 0.
@@ -193,3 +193,29 @@ Proof.
     + repeat split; auto. right. exists s. split; auto. destruct n; reflexivity.
 Qed.
 End Compile.
+
+(* everything compile writes is a byte *)
+Lemma Forall_concat {A} (P : A -> Prop) (ls : list (list A)) : Forall (Forall P) ls -> Forall P (concat ls).
+Proof. induction 1; cbn [concat]; [constructor|]. apply Forall_app. auto. Qed.
+
+Lemma compile_bbytes ty E b n b' r :
+  minv ty E b -> node_ok E n ->
+  NODE_MAX * (len E + 1) + 100 < U64 ->
+  compile b n = (b', r) -> bbytes b -> bbytes b'.
+Proof.
+  intros (HE & HB & HR) Hn Hsize Hc Hbb. unfold compile in Hc.
+  destruct (n_final n && (match n_trans n with [] => true | _ => false end) && (n_fout n =? 0)) eqn:Hs.
+  { inversion Hc; subst. exact Hbb. }
+  assert (Hns : ~ sentinel n) by (intro X; apply sentinel_test in X; congruence).
+  destruct (reg_entry (b_reg b) n) as [reg0 e] eqn:He.
+  destruct HB as [Bver Bcnt Blen Bhdr Btiles Bla].
+  pose proof (top_addr_bound _ HE) as Htb.
+  assert (Hbn : bnode_ok (b_last_addr b) (b_count b) n).
+  { rewrite Bcnt. apply bnode_ok_of; auto. unfold NODE_MAX, U64 in *. lia. }
+  assert (Hw : forall cs, compile_node (b_version b) (b_last_addr b) (b_count b) n = Ok cs ->
+            Forall (fun x => x < 256) (concat (rev (rev cs ++ b_out b)))).
+  { intros cs Hcs. rewrite rev_app_distr, rev_involutive, concat_app. apply Forall_app. split; [exact Hbb|].
+    apply Forall_concat. eapply compile_node_bytes; eauto. }
+  destruct (compile_node (b_version b) (b_last_addr b) (b_count b) n) as [cs| |] eqn:Hcs;
+    destruct e as [a|idx|]; inversion Hc; subst; try exact Hbb; apply (Hw cs eq_refl).
+Qed.
